@@ -102,7 +102,7 @@ func GenGroups(r *core.Rng, job string) []TG {
 				ls["instance"] = r.PickS("custom-instance", "i-1")
 			}
 			if r.Intn(8) == 0 {
-				ls["__metrics_path__"] = "/from/sd"
+				ls["__metrics_path__"] = r.PickS("/from/sd", "/from/sd", "/from//sd", "/from/sd/./x")
 			}
 			if r.Intn(8) == 0 {
 				ls["__scheme__"] = r.PickS("https", "http")
